@@ -359,6 +359,8 @@ func genC01(rng *Rng, thorough bool, emit func(*Scenario)) {
 			emit(&Scenario{Tag: "c01-overlong-line", Replies: [][][]byte{ic}, Calls: []Call{{Kind: "devid", Want: "err:other"}}, NoAccept: true})
 		}
 	}
+	genStale("c01-stale", rng, false, emit)
+	genRawHistory(rng, emit)
 	// device id: Done frames and their corruptions
 	ids := []uint16{0xA053, 0x0203, 0x0000, 0xFFFF, uint16(rng.U64())}
 	// a faulty stream repeated for every exchange of a call (a call that retries must still not invent a value)
@@ -576,4 +578,6 @@ func genC02(rng *Rng, thorough bool, emit func(*Scenario)) {
 		}
 		emit(sc)
 	}
+	genStale("c02-stale", rng, false, emit)
+	genManyAddresses(rng, emit)
 }
